@@ -187,13 +187,16 @@ theorem invS_own {sh : Shape} {s t : St} (h : InvS s) (st : OwnStep sh s t) : In
     obtain ⟨in0, out0, m1a, m1b, m1c, sk, mr⟩ := h
     rcases (in0 a hx).2 with e | e <;> subst e <;>
       (refine ⟨?_, ?_, ?_, ?_, ?_, ?_, ?_⟩ <;> simp_all [isInClose, upd])
-  | arm hx hd =>
+  | arm hx =>
     obtain ⟨in0, out0, m1a, m1b, m1c, sk, mr⟩ := h
     cases sh.checkAfterArm <;> (refine ⟨?_, ?_, ?_, ?_, ?_, ?_, ?_⟩ <;> simp_all [isInClose, upd])
   | drainArm hx =>
     obtain ⟨in0, out0, m1a, m1b, m1c, sk, mr⟩ := h
     cases sh.drainChecked <;> cases s.done <;> (refine ⟨?_, ?_, ?_, ?_, ?_, ?_, ?_⟩ <;> simp_all [isInClose, upd])
   | readyGiveUp hx hd =>
+    obtain ⟨in0, out0, m1a, m1b, m1c, sk, mr⟩ := h
+    cases s.stream <;> (refine ⟨?_, ?_, ?_, ?_, ?_, ?_, ?_⟩ <;> simp_all [isInClose, upd])
+  | topRead hx hc hd =>
     obtain ⟨in0, out0, m1a, m1b, m1c, sk, mr⟩ := h
     cases s.stream <;> (refine ⟨?_, ?_, ?_, ?_, ?_, ?_, ?_⟩ <;> simp_all [isInClose, upd])
   | _ =>
@@ -619,13 +622,14 @@ theorem invD_own {sh : Shape} {s t : St} (h : InvD sh s) (hB : InvB sh s) (hS : 
   | topCtxStream hx hc hs => exact wake_vacuous _ _ _ _ (by simp) (by simp) (by simp)
   | topCtxPacket hx hc hs => exact wake_vacuous _ _ _ _ (by simp) (by simp) (by simp)
   | topDone hx hc hd => exact wake_vacuous _ _ _ _ (by simp) (by simp) (by simp)
-  | topRead hx hc hd => exact wake_vacuous _ _ _ _ (by simp) (by simp) (by simp)
+  | topRead hx hc hd => cases s.stream <;> exact wake_vacuous _ _ _ _ (by simp) (by simp) (by simp)
   | cleanDone r hx hcl => cases r <;> exact wake_vacuous _ _ _ _ (by simp) (by simp) (by simp)
   | ctxCloseCall hm hx hc => exact wake_vacuous _ _ _ _ (by simp) (by simp) (by simp)
   | closeReturned a hm hx hc =>
     rcases (hS.in0 a hx).2 with e | e <;> subst e <;> exact wake_vacuous _ _ _ _ (by simp) (by simp) (by simp)
-  | armClosed hx hs hd => exact wake_vacuous _ _ _ _ (by simp) (by simp) (by simp)
-  | arm hx hd =>
+  | preClosed hx hd => exact wake_vacuous _ _ _ _ (by simp) (by simp) (by simp)
+  | preOpen hx hd => exact wake_vacuous _ _ _ _ (by simp) (by simp) (by simp)
+  | arm hx =>
     refine ⟨?_, ?_⟩
     · intro hs _ hl
       dsimp only at hl
@@ -687,7 +691,7 @@ end Mieru.UClose
 namespace Mieru.UClose
 
 /-- everything that holds in every reachable state -/
-structure Inv (sh : Shape) (m : Nat) (s : St) : Prop where
+structure AllInv (sh : Shape) (m : Nat) (s : St) : Prop where
   a : InvA s
   s' : InvS s
   b : InvB sh s
@@ -695,11 +699,11 @@ structure Inv (sh : Shape) (m : Nat) (s : St) : Prop where
   d : InvD sh s
   m : s.m = m
 
-theorem inv_init (sh : Shape) (stream server : Bool) (m : Nat) : Inv sh m (init stream server m) := by
+theorem inv_init (sh : Shape) (stream server : Bool) (m : Nat) : AllInv sh m (init stream server m) := by
   refine ⟨⟨?_, ?_, ?_⟩, ⟨?_, ?_, ?_, ?_, ?_, ?_, ?_⟩, ⟨?_, ?_, ?_, ?_, ?_, ?_, ?_, ?_, ?_, ?_⟩, ⟨?_, ?_⟩, ⟨?_, ?_⟩, rfl⟩ <;>
     simp [init, holding, isInClose]
 
-theorem inv_step {sh : Shape} {m : Nat} {s t : St} (h : Inv sh m s) (st : Step sh s t) : Inv sh m t := by
+theorem inv_step {sh : Shape} {m : Nat} {s t : St} (h : AllInv sh m s) (st : Step sh s t) : AllInv sh m t := by
   cases st with
   | own o =>
     refine ⟨invA_own h.a o, invS_own h.s' o, invB_own h.b h.a o, invC_own h.c o, invD_own h.d h.b h.s' o, ?_⟩
@@ -708,7 +712,7 @@ theorem inv_step {sh : Shape} {m : Nat} {s t : St} (h : Inv sh m s) (st : Step s
     refine ⟨invA_env h.a e, invS_env h.s' e, invB_env h.b e, invC_env h.c e, invD_env h.d e, ?_⟩
     rw [← h.m]; cases e <;> rfl
 
-theorem reach_inv {sh : Shape} {stream server : Bool} {m : Nat} {s : St} (h : Reach sh stream server m s) : Inv sh m s := by
+theorem reach_inv {sh : Shape} {stream server : Bool} {m : Nat} {s : St} (h : Reach sh stream server m s) : AllInv sh m s := by
   induction h with
   | init => exact inv_init sh stream server m
   | step _ st ih => exact inv_step ih st
